@@ -395,7 +395,7 @@ Fixpoint sem (n : nat) (g : G) (ctx : val) (p : nat) (a : reg) {struct n} : opti
             Some (Some (fold_left (fun acc it =>
                           VTag k (VPair (VPair acc (sitem_val it))
                                         (VPair (vspan (spn p (sitem_after it)))
-                                               (VNat (N.to_nat (ust_at (sitem_after it)))))))
+                                               (VNum (ust_at (sitem_after it))))))
                           (rev items) va, p2, e1 ++ e2), a2)
         | Some (None, a2) => Some (None, a2)
         | None => None
@@ -414,7 +414,7 @@ Fixpoint sem (n : nat) (g : G) (ctx : val) (p : nat) (a : reg) {struct n} : opti
           seq (run y ctx p1 a1) (fun vb p2 e2 a2 =>
             Some (Some (fold_left (fun acc it =>
                           VTag k (VPair (VPair (sitem_val it) acc)
-                                        (VPair (vspan (spn (sitem_before it) p2)) (VNat (N.to_nat (ust_at p2))))))
+                                        (VPair (vspan (spn (sitem_before it) p2)) (VNum (ust_at p2)))))
                           items vb, p2, e1 ++ e2), a2))
       | Some (None, a1) => Some (None, a1)
       | None => None
